@@ -476,6 +476,7 @@ def _table_matcher(prog, i, b, t, c):
 
 
 def Y3(ctx):
+    """Ordering tables of Synchronize::sync_load / sync_store by partial evaluation per Ordering variant: acquire effect iff >= Acquire, release effect iff >= Release, release-fence view always, seq_cst hook iff SeqCst."""
     prog = ctx.prog
     want = {
         SYNC + "::sync_load": {"Relaxed": set(), "Release": set(), "Acquire": {"acq"}, "AcqRel": {"acq"},
@@ -509,6 +510,7 @@ def Y3(ctx):
 
 
 def Y4(ctx):
+    """Fence table: Acquire->fence_acq, Release->fence_rel, AcqRel->both, SeqCst->both + global SC clock (joined both ways), Relaxed panics; fence_rel snapshots causality into `released`."""
     prog = ctx.prog
     fn_key = "rt::atomic::fence::{closure#0}"
     root = prog.ident(fn_key)
